@@ -850,6 +850,48 @@ func runC12(c *h.Ctx) {
 			}
 		}
 	}
+	// the operands of a comparison inside a filter: a bare @ that is itself an
+	// array (arrays nested in arrays) is unwrapped like any other operand, and an
+	// operand that starts at $ or a variable but is subscripted by a member of
+	// the current item is worked out for every item - against the reference model
+	{
+		docs := []string{`[[1,5],[7],["x","abc"],[5],5,[[5]]]`, `{"rows":[{"v":20,"i":1},{"v":20,"i":0},{"v":7,"i":2},{"v":"x","i":2}],"tbl":[10,20,"x"]}`, `[[20,10],[10,20],[30]]`}
+		ptxts := []string{`$ ? (@ == 5)`, `$ ? (@ > 6)`, `$ ? (@ starts with "ab")`, `$ ? (@ like_regex "^ab")`, `$[*] ? (@ == 5)`, `$[*] ? (5 == @)`, `$[*] ? (@ < 6)`, `$[*] ? (@[*] == 5)`, `$[*] ? ((@ == 5) is unknown)`, `$[*] ? (@ != 5)`,
+			`$.rows[*] ? (@.v == $.tbl[@.i])`, `$.rows[*] ? (@.v > $.tbl[@.i])`, `$.rows[*] ? (@.v < $.tbl[@.i])`, `$.rows[*] ? (@.v == $t[@.i])`, `$.rows[*] ? ($.tbl[@.i] == @.v)`, `$.rows[*] ? ((@.v == $.tbl[@.i]) is unknown)`, `$.rows[*] ? (@.v >= $.tbl[@.i] && @.v <= $.tbl[@.i])`,
+			`$[*] ? (@[0] < $[1][@.size() - 1])`, `$[*] ? (@ == $[0])`}
+		k := 0
+		for _, d := range docs {
+			for _, pt := range ptxts {
+				for v := 0; v < 4; v++ {
+					k++
+					if !c.Mine(k) {
+						continue
+					}
+					txt := pt
+					if v&2 != 0 {
+						txt = "strict " + pt
+					}
+					ec, err := CaseFrom(h.Case{Path: txt, Doc: d, UseNum: v&1 != 0, Vars: `{"t":[10,20,"x"]}`})
+					if err != nil {
+						c.Count("gen.unparsable", 1)
+						continue
+					}
+					o := h.Call("query", ec.P, ec.DocValue(), ec.Opts())
+					c.Eval(1)
+					switch verdict, feat, detail := modelVerdict(ec, o); {
+					case verdict == "held":
+						c.Held("filter.operands")
+					case strings.HasPrefix(verdict, "skip:"):
+						c.Skip("filter.operands", strings.TrimPrefix(verdict, "skip:"))
+					case feat["cause"] != "" && feat["cause"] != "unexplained":
+						c.Skip("filter.operands", "recorded-finding:"+feat["cause"])
+					default:
+						c.Violate("filter.operands", feat, detail, ec.Case())
+					}
+				}
+			}
+		}
+	}
 }
 
 // flat: no element is an array (nothing a lax step would unwrap).
